@@ -50,6 +50,12 @@ def monitor(script_lines, out_lines):
             ref = RefSet()
         elif t[0] == "add":
             ref.add(t[1])
+        elif t[0] == "addf":
+            if oi >= len(out_lines) or out_lines[oi] not in ("addf ok", "addf err"):
+                return "missing observation after addf (driver died?)"
+            if out_lines[oi] == "addf ok":
+                ref.add(t[2])        # a failed insertion leaves the multiset as it was
+            oi += 1
         elif t[0] == "pop":
             ref.pop(t[1])
         elif t[0] == "q":
@@ -114,6 +120,22 @@ def gen_cases(tier, seed):
             lines.append("%s %s" % (rng.choice(["add", "add", "pop"]), v))
             lines.append("q " + " ".join(hexs(rng.choice(pool)) for _ in range(3)))
         cases.append(("r%d" % k, "\n".join(lines), "random"))
+    # insertions during which an allocation fails (judged by the monitor only: the model does not allocate)
+    for k in range(150 if tier == "quick" else 1500):
+        pool = ["a", "c", "e", "zz", "".join(chr(rng.randint(97, 122)) for _ in range(rng.randint(1, 6)))]
+        lines = ["new %d" % rng.choice([0, 1, 2])]
+        qq = "q " + " ".join(hexs(v) for v in pool)
+        for _ in range(rng.randint(3, 25)):
+            r = rng.random()
+            v = hexs(rng.choice(pool))
+            if r < 0.3:
+                lines.append("addf %d %s" % (rng.choice([0, 1, 2, 3, 4, 5, 6]), v))
+            elif r < 0.65:
+                lines.append("add " + v)
+            else:
+                lines.append("pop " + v)
+            lines.append(qq)
+        cases.append(("f%d" % k, "\n".join(lines), "alloc"))
     # distinct strings of equal length with the SAME full 64-bit hash (the hash is a polynomial in the bytes, so a
     # colliding pair stays one under a common prefix / suffix and under a common shift of all bytes): only the
     # final string comparison tells them apart
@@ -194,28 +216,28 @@ def main(rep):
         rep.cov["exhaustive"] = False
         rep.cov["rule"] = ("all add/pop sequences of length %d over 3 strings colliding in 2- and 4-bucket tables (size guess 0 and 1), "
                            "counts of all 3 strings and is_empty observed after every step; random 50-400 step sequences over pools of "
-                           "random byte strings (bytes >= 128 included), size guesses {0,1,2,5,60}; hash and hash-cache sequences; pairs of distinct strings with the same full 64-bit hash. "
+                           "random byte strings (bytes >= 128 included), size guesses {0,1,2,5,60}; hash and hash-cache sequences; pairs of distinct strings with the same full 64-bit hash; insertions with a failing allocation (monitor only). "
                            "non-trivial = contains at least one removal; distinct by script text") % (6 if rep.tier == "quick" else 7)
         rep.cov["samples"] = [cases[0][1].split("\n")[:8], cases[-1][1].split("\n")[:8]]
         validated = 0
+        # first pass: the monitor on every case (a concrete failing input wins); second: model against implementation
         for cid, script, kind in cases:
             il = impl.get(cid)
-            ml = model.get(cid) if exe_model else None
-            bad = None
-            if il is None:
-                bad = "no output from implementation"
-            else:
-                bad = monitor(script.split("\n"), il)
-            if bad is None and ml is not None and il != ml:
-                bad = "implementation and model differ"
-            if bad is None:
+            bad = "no output from implementation" if il is None else monitor(script.split("\n"), il)
+            if bad is not None:
+                rep.violation("counts", {"case": cid, "script": script.split("\n"), "implementation": il, "model": model.get(cid) if exe_model else None,
+                                         "what": bad, "replay": "./check C15 --replay <this file>"}, found_input=True)
+                found = True
+                break
+        if not found:
+            for cid, script, kind in cases:
+                il = impl.get(cid)
+                ml = model.get(cid) if exe_model else None
+                if kind != "alloc" and ml is not None and il != ml:
+                    rep.defer_divergence({"case": cid, "script": script.split("\n"), "implementation": il, "model": ml,
+                                          "what": "implementation and model differ"})
+                    continue
                 validated += 1
-                continue
-            concrete = il is not None and monitor(script.split("\n"), il) is not None
-            rep.violation("counts", {"case": cid, "script": script.split("\n"), "implementation": il, "model": ml,
-                                     "what": bad, "replay": "./check C15 --replay <this file>"}, found_input=concrete or il is None)
-            found = True
-            break
         rep.cov["traces_validated_against_impl"] = validated
         for p in problems:
             rep.notes.append(p)
